@@ -149,7 +149,7 @@ func init() {
 	register("C08", func(e *Env) {
 		renderPrelude()
 		e.perShard = 60
-		e.rep.Rule = "iterables: []interface{} / []string / []int of length 0..4, maps with 1 entry (exact) and 2-3 entries (multiset of per-entry outputs), range/between/until/groupBy iterators, nil, non-iterables; bodies generated from {text, key, value, break, continue, if+break, if+continue, if+text (nested), inner loop} to nesting depth 2 (break/continue at every statement position incl. after an inner loop); oracle = a Go reference interpreter of the body run element by element (loop unrolling), concatenated; fixed patterns exhaustively + random bodies; loops evaluated several times in one render whose iterable depends on an outer loop variable, a function argument or a reassigned variable; non-trivial = at least one iteration; distinct by (iterable, body)"
+		e.rep.Rule = "iterables: []interface{} / []string / []int of length 0..4, maps with 1 entry (exact) and 2-3 entries (multiset of per-entry outputs), range/between/until/groupBy iterators, nil, non-iterables; bodies generated from {text, key, value, break, continue, if+break, if+continue, if+text (nested), inner loop} to nesting depth 2 (break/continue at every statement position incl. after an inner loop); oracle = a Go reference interpreter of the body run element by element (loop unrolling), concatenated; fixed patterns exhaustively + random bodies; map loops whose body inserts into the iterated map; loops evaluated several times in one render whose iterable depends on an outer loop variable, a function argument or a reassigned variable; non-trivial = at least one iteration; distinct by (iterable, body)"
 		type iterable struct {
 			name  string
 			bind  *Bind
@@ -282,6 +282,23 @@ func init() {
 			e.Distinct(t[0])
 			if o.Class != "OK" || o.Out != t[1] {
 				e.Violate("c08-unroll", fmt.Sprintf("%s: rendered %q (%s %s), element-by-element reference %q", t[0], o.Out, o.Class, o.Msg, t[1]), map[string]interface{}{"case": c, "observed": o})
+			}
+		}
+		// a loop over a map whose body inserts new entries into that map: the body still runs once
+		// per entry the map had when the loop started (repeated: Go's live iteration is random)
+		for _, t := range [][2]string{
+			{`<%= for (k, v) in mi { %>[<%= v %>]<% mi[k + "x"] = v + 1 %><% } %>`, "[9]"},
+			{`<%= for (k, v) in mi { %><% mi["n1"] = 1 %><% mi["n2"] = 2 %><% mi["n3"] = 3 %>(<%= k %>)<% } %>|<%= len(mi) %>`, "(k)|4"},
+			{`<%= for (k, v) in m { %><% m[k + k] = "new" %><% } %><%= len(m) %>`, "4"},
+		} {
+			for rep := 0; rep < 40; rep++ {
+				o := runRender(RCase{Tmpl: t[0], Binds: stdBinds()})
+				e.rep.Evaluations++
+				e.Count("insert-while-iterating")
+				if o.Class != "OK" || o.Out != t[1] {
+					e.Violate("c08-unroll", fmt.Sprintf("%s: rendered %q (%s %s), once-per-entry reference %q", t[0], o.Out, o.Class, o.Msg, t[1]), map[string]interface{}{"tmpl": t[0], "observed": o})
+					break
+				}
 			}
 		}
 		// the repaired defect F7 and the seeded iterator-index mutant stay in the corpus
